@@ -73,10 +73,20 @@ func refRefused(b []byte) (refused bool, lowOrder bool, decodable bool) {
 }
 
 func genC14(t *rapid.T) c14Case {
-	c := c14Case{Mode: rapid.SampledFrom([]string{"random", "torsion", "torsion", "neighbour", "keys"}).Draw(t, "mode")}
+	c := c14Case{Mode: rapid.SampledFrom([]string{"random", "torsion", "torsion", "neighbour", "keys", "partial", "partial"}).Draw(t, "mode")}
 	switch c.Mode {
 	case "random":
 		c.Raw = rapid.SliceOfN(rapid.Byte(), 32, 32).Draw(t, "raw")
+	case "partial":
+		// an arbitrary encoding that agrees with a small-order encoding on a window of bytes (its first or last few)
+		c.Seed = rapid.SliceOfN(rapid.Byte(), 1, 8).Draw(t, "seed")
+		c.FlipSign = rapid.Bool().Draw(t, "flip")
+		c.AddP = rapid.Bool().Draw(t, "addp")
+		c.Raw = rapid.SliceOfN(rapid.Byte(), 32, 32).Draw(t, "raw")
+		c.Bit = rapid.SampledFrom([]int{1, 2, 2, 3, 4, 8, 16, 30, 31}).Draw(t, "window")
+		if rapid.Bool().Draw(t, "head") {
+			c.Bit = -c.Bit
+		}
 	case "torsion", "neighbour":
 		c.Seed = rapid.SliceOfN(rapid.Byte(), 1, 8).Draw(t, "seed")
 		c.FlipSign = rapid.Bool().Draw(t, "flip")
@@ -135,6 +145,18 @@ func checkC14(c c14Case) (o vstat.Outcome) {
 	case "neighbour":
 		in = c14TorsionBytes(c)
 		in[c.Bit/8] ^= 1 << (uint(c.Bit) % 8)
+		o.NonTrivial = true
+	case "partial":
+		tb := c14TorsionBytes(c)
+		in = append([]byte{}, c.Raw...)
+		if len(in) != 32 {
+			in = make([]byte, 32)
+		}
+		if c.Bit >= 0 {
+			copy(in[32-c.Bit:], tb[32-c.Bit:]) // the last c.Bit bytes
+		} else {
+			copy(in[:-c.Bit], tb[:-c.Bit]) // the first -c.Bit bytes
+		}
 		o.NonTrivial = true
 	case "keys":
 		o.NonTrivial = !bytes.Equal(c.SeedA, c.SeedB)
